@@ -36,7 +36,7 @@ fn dev_explore(args: &[String]) {
             println!("   {} x {}\n      schedule {}", n, k, hex(s));
         }
         for n in &r.nondet { println!("   NONDET {}", n); }
-        for c in &r.crashed { println!("   CRASH {}", c); }
+        for c in &r.crashed { println!("   CRASH {}", c.desc); }
         println!("   witnesses: {:?}", s.witnesses);
     }
     println!("try sites: {:?}", sites);
